@@ -6,9 +6,30 @@ use crate::bases::*;
 use crate::common::ClusterHeader;
 use crate::creator::{Compression, InputReader, MaybeFileReader};
 use std::io::{BufWriter, Write};
+#[cfg(not(jubako_verif_shuttle))]
 use std::sync::{mpsc, Arc, Condvar, Mutex};
+#[cfg(not(jubako_verif_shuttle))]
 use std::thread::JoinHandle;
+#[cfg(jubako_verif_shuttle)]
+use crate::verif::spmc;
+#[cfg(jubako_verif_shuttle)]
+use crate::verif::sync::{mpsc, Arc, Condvar, Mutex};
+#[cfg(jubako_verif_shuttle)]
+use crate::verif::thread::JoinHandle;
 
+#[cfg(jubako_verif_shuttle)]
+fn spawn<F, T>(name: &str, f: F) -> JoinHandle<T>
+where
+    F: FnOnce() -> T + Send + 'static,
+    T: Send + 'static,
+{
+    crate::verif::thread::Builder::new()
+        .name(name.into())
+        .spawn(f)
+        .expect("Success to launch thread")
+}
+
+#[cfg(not(jubako_verif_shuttle))]
 #[inline(always)]
 fn spawn<F, T>(name: &str, f: F) -> std::thread::JoinHandle<T>
 where
@@ -346,6 +367,12 @@ impl<O: OutStream + 'static> ClusterWriterProxy<O> {
         };
         if should_compress {
             let (count, cvar) = &*self.nb_cluster_in_queue;
+            #[cfg(jubako_verif)]
+            crate::verif::probe(
+                "dispatch_queue",
+                *count.lock().unwrap() as u64,
+                self.max_queue_size as u64,
+            );
             let mut count = cvar
                 .wait_while(count.lock().unwrap(), |c| *c >= self.max_queue_size)
                 .unwrap();
